@@ -7,6 +7,79 @@ HERE = os.path.dirname(os.path.dirname(os.path.abspath(__file__)))
 PROPS = [json.loads(l)["id"] for l in open(os.path.join(HERE, "properties.jsonl"))]
 
 CHECKS = {
+    "C01": dict(
+        category="exploration", design="DESIGN.md §3 C01",
+        technique="property-based testing with a direct oracle (Search == DB[w]) over Hypothesis-generated (config, DB) cases per "
+                  "scheme plus complete enumeration of all integer partitions of N <= 9 (quick) / <= 16 (thorough) as length profiles",
+        text="For each of the nine schemes, configurations from the supported grid and databases built by construction (boundary "
+             "length profiles: N=1, one list of 2^t postings, lists on block/level/case thresholds, structured keyword families, "
+             "four identifier layouts) are encrypted under a seeded DRBG and every stored keyword is searched; the answer must "
+             "equal the posting list (order included; set for DP17) and no call may raise. All partitions of N <= 9 / 16 are "
+             "enumerated as profiles, and the default configurations are exercised at 64/65/128 (thorough: 4096/4097) postings.",
+        note="Database validity is the quantifier of C01; sizes are bounded to a few hundred postings per case (4097 in thorough)."),
+    "C02": dict(
+        category="exploration", design="DESIGN.md §3 C02",
+        technique="property-based testing: absent-keyword queries (prefix, suffix, NUL-extended, doubled, bit-flipped, case-swapped, "
+                  "max-length, random) against C01's generated indexes, oracle = empty result and no exception",
+        text="On the same generated (scheme, config, key, DB) cases as C01, up to ~20 valid keywords that are not in the database "
+             "and are adversarially close to stored ones are searched, interleaved with present keywords; each must return an "
+             "empty result of the scheme's result type without raising.",
+        note="Absent keywords are valid keywords (non-empty, no leading NUL, within the length limit)."),
+    "C03": dict(
+        category="exploration", design="DESIGN.md §3 C03",
+        technique="round-trip and differential property-based testing: serialize/deserialize equality, a harness-side 'server' built "
+                  "only from the JSON config + bytes through the by-name loader, and key reload in a fresh scheme instance",
+        text="For generated cases with width-bearing fields moved off their defaults, key/token/EDB/result round-trip to equal "
+             "objects; a server that holds only json(config), EDB bytes and token bytes returns DB.get(w, empty) after result "
+             "serialization for present and absent keywords; a fresh scheme instance with the key reloaded from bytes regenerates "
+             "byte-identical tokens.",
+        note="Byte-identical re-serialization is not demanded (a pickled set may iterate differently); hostile bytes are out of scope."),
+    "C04": dict(
+        category="exploration", design="DESIGN.md §3 C04",
+        technique="property-based testing with byte-level oracles: substring absence of high-entropy keywords/identifiers, pairwise "
+                  "distinct 16-byte ciphertext blocks, disjoint blocks across two setups, keyed labels/tokens",
+        text="Database shapes are Hypothesis-generated (incl. one identifier under every keyword) and contents are DRBG output long "
+             "enough that an accidental hit is < 1e-15; EDB and token bytes must not contain any keyword or (except SSE-2) "
+             "identifier, all ciphertext blocks of one index are distinct, two setups of the same (key, DB) share no block, and "
+             "labels/tokens under two keys share nothing.",
+        note="Necessary conditions on bytes only; nothing about semantic security. SSE-2 identifiers are exempt by construction."),
+    "C05": dict(
+        category="exploration", design="DESIGN.md §3 C05",
+        technique="metamorphic property-based testing over constructively generated PAIRS of databases with equal public size "
+                  "parameter: shape(EDB1) == shape(EDB2), plus per-table length uniformity",
+        text="Pairs of valid databases with equal pi_S (N, block counts, (blocks, pointer blocks), (|W|, A_len), ceil(log2 N)) but "
+             "different keyword counts, list-length distributions, contents and keys are encrypted; per-container entry counts and "
+             "multisets of key/value byte lengths must coincide and every padded table must have one key length and one value "
+             "length. Thorough adds all partition pairs of N <= 10 for CT14/ANSS16/DP17.",
+        note="Shape is computed from the unpickled containers; SSE-2 integer keys compared by type; DP17's last bucket may be shorter."),
+    "C06": dict(
+        category="exploration", design="DESIGN.md §3 C06",
+        technique="metamorphic property-based testing (keyword-order permutation under an identically re-seeded DRBG: sorted tables, "
+                  "equal label sequences) and recording-list instrumentation of array reads across two setups with computed "
+                  "false-alarm bounds < 1e-15",
+        text="(i) For the four CJJ14 schemes, CT14 and ANSS16 the keys of every table of the serialized index are ascending and the "
+             "(real) label sequence is invariant under permuting the input order. (ii) For PiPtr, Pi2Lev, SSE-1 and DP17 the slots "
+             "read by Search differ between two setups, are not the sequential allocation, and DP17 buckets are not in un-shuffled "
+             "arrangement - each asserted only when correct code would fail with probability < 1e-15 for that case.",
+        note="No statistical uniformity test; a weak but non-constant placement is out of reach."),
+    "C07": dict(
+        category="exploration", design="DESIGN.md §3 C07",
+        technique="model-based testing of generated search histories with history invariants (inputs deep-equal before/after, EDB "
+                  "bytes identical after every step, answers stable)",
+        text="Generated histories of present/absent/repeated/fresh-token/reused-token searches (<= 15 quick, <= 40 thorough) run "
+             "against one index per case; DB, config dict, module DEFAULT_CONFIG, key bytes and token bytes must be unchanged, "
+             "EDB.serialize() byte-identical after every step, and every answer equal to DB.get(w, empty) and to its first answer.",
+        note="Explicit mutators (scan_database_and_update_config_dict, the client's salt) are outside the property."),
+    "C08": dict(
+        category="exploration", design="DESIGN.md §3 C08",
+        technique="property-based testing over a configuration edit grid with a disjunctive oracle (raises somewhere OR all searches "
+                  "correct); complete sweeps of single-key deletions and single-field edits",
+        text="Base configurations receive 1-3 edits from the value grids (valid, boundary, out-of-range, wrong-typed, wrong-kind "
+             "names); a database valid for the edited configuration is encrypted and searched. A completed run with any wrong "
+             "result is a violation; a deleted key must be refused at build time or be unneeded. Every single-field edit and "
+             "every single-key deletion is enumerated completely in both tiers.",
+        note="When identifier size / keyword limit / capacities are not positive integers no valid database exists (vacuous, "
+             "counted); label/key lengths are >= 8 or outright invalid; hangs are cut at 30 s and counted inconclusive."),
     "C18": dict(
         category="exploration", design="DESIGN.md §3 C18",
         technique="property-based testing against a list-of-bits reference model: exhaustive enumeration (<= 8 bits), "
